@@ -216,7 +216,8 @@ def search_models(chk, pid, quick):
     from check import model_check
     plan = {
         "C03": [("MCSearch", "MCSearch_legal", False), ("MCSearch", "MCSearch_collide", True)],
-        "C04": [("MCSearchCtl", "MCSearchCtl", False), ("MCSearchCtl", "MCSearchCtl_pinned", True)],
+        "C04": [("MCSearch", "MCSearchCtl", False), ("MCSearch", "MCSearchCtl_pinned", True), ("MCSearch", "MCSearchCtl2", False),
+                ("MCSearch", "MCSearch_mated", False), ("MCSearch", "MCSearch_mated_pinned", True)],
         "C06": [("MCSearch", "MCSearch_mate", False)],
         "C17": [("MCSearch", "MCSearch_history", False)],
         "C19": [("MCSearch", "MCSearch_det", False)],
